@@ -27,6 +27,8 @@ def main():
         text = "%s; needs: %s" % (m["breaks"], m["needs_to_manifest"])
         if m.get("history"):
             text += " -- " + m["history"]
+        if m.get("verdict"):
+            text += " -- VERDICT: " + m["verdict"]
         det = ", ".join("%s (exit %s)" % (c, e) for c, e in m["checks_run_against_it"].items())
         rows.append("| %s | %s | %s |" % (os.path.basename(d), text.replace("|", "\\|"), det))
     open(os.path.join(VERIF, "seeded", "README.md"), "w").write(HEAD + "\n".join(rows) + "\n")
